@@ -136,6 +136,14 @@ def concrete(family, kind):
           ("two_months_60d", lambda: base(days=60), True, std)]
     if family != "billing":
         dq.append(("no_sunday_readings", lambda: no_sundays(base()), True, std))
+    if H:
+        # a baseline WITH an irradiance column whose only defect is its irradiance coverage (eight June days without GHI): the default
+        # model picks its features from the columns, so this disqualification is one it must honour
+        def ghi_gap(fr):
+            fr = fr.copy()
+            fr.loc[(fr.index.month == 6) & (fr.index.day <= 8), "ghi"] = np.nan
+            return fr
+        dq.append(("june_ghi_8d_missing", lambda: ghi_gap(_hourly(solar=True)), True, std))
     po = [("weather_independent_noise", lambda: poor(base()), True, std),
           ("threshold_1e-6", lambda: base(), True, thr)]
     if H:
@@ -165,7 +173,7 @@ def new_model(family, settings):
     return cls(settings=settings) if settings else cls()
 
 
-def predict_input(family, dtype, tz):
+def predict_input(family, dtype, tz, solar=False):
     import opendsm.eemeter as em
 
     zone = {"same": ZONE, "other": OTHER_ZONE, "other_same_offset": SAME_OFFSET_ZONE}[tz]
@@ -182,7 +190,7 @@ def predict_input(family, dtype, tz):
             return em.DailyReportingData(fr, is_electricity_data=True)
         return em.BillingReportingData.from_series(ds.billing_reads(fr["observed"]), fr["temperature"], is_electricity_data=True)
     if family == "hourly":
-        fr = ds.hourly_frame(start="2022-02-01", days=40 if dtype == "own_reporting" else 365, tz=zone, wseed=3, seed=3)
+        fr = ds.hourly_frame(start="2022-02-01", days=40 if dtype == "own_reporting" else 365, tz=zone, wseed=3, seed=3, solar=solar)
         return (em.HourlyReportingData if dtype == "own_reporting" else em.HourlyBaselineData)(fr, is_electricity_data=True)
     fr = ds.daily_frame(start="2022-02-01", days=95 if dtype == "own_reporting" else 365, tz=zone, wseed=3, seed=3)
     if family == "daily":
@@ -278,7 +286,7 @@ def run_case(case):
 
     def pin(dtype, tz):
         if (dtype, tz) not in pin_cache:
-            pin_cache[(dtype, tz)] = predict_input(family, dtype, tz)
+            pin_cache[(dtype, tz)] = predict_input(family, dtype, tz, solar="ghi" in vname)
         return pin_cache[(dtype, tz)]
 
     live = {}   # core state -> real object
